@@ -60,6 +60,13 @@ class Closure:
     def __init__(self, node, env): self.node, self.env = node, env
 
 
+class IterV:
+    """An opaque iterator handed in from outside (e.g. the nearest-neighbour iterator): only how much of it was consumed and which
+    adapters were stacked on it is tracked. `elems(k)` names its k-th item."""
+    def __init__(self, name, elem, consumed=0, adapters=()):
+        self.name, self.elem, self.consumed, self.adapters = name, elem, consumed, tuple(adapters)
+
+
 class Variant:
     """A value of an enum with payloads whose variant is known (e.g. RTreeNode::Parent(data) / RTreeNode::Leaf(t)): the units are run once
     per variant, so the tag is concrete."""
@@ -1014,6 +1021,17 @@ class Interp:
                 if recv.val is None: return Opt(FALSE, None)
                 sub = env.fork(And(env.pc, recv.some))
                 return Opt(recv.some, self.call_closure(sub, cl, [recv.val]))
+        if isinstance(recv, IterV):
+            if m == "by_ref": return recv
+            if m == "next" and not recv.adapters:
+                k = recv.consumed
+                recv.consumed += 1          # the iterator is a place: `next` advances it
+                some = self.ctx.fresh("%s_has_%d" % (recv.name, k), "Bool")
+                return Opt(some, recv.elem(k))
+            if m == "skip" and not recv.adapters:
+                a0 = self.ev(env, n["args"][0])
+                if tm.is_const(a0): return IterV(recv.name, recv.elem, recv.consumed + a0.args[0], ())
+            return IterV(recv.name, recv.elem, recv.consumed, recv.adapters + (m,))     # any other adapter: remembered by name only
         args = [self.ev_arg(env, a) for a in n["args"]]
         if isinstance(recv, RangeV) and m == "clone": return recv
         if isinstance(recv, Vec): return self.vec_method(env, n, recv, m, args)
@@ -1036,6 +1054,10 @@ class Interp:
                 return Or(*[Eq(x, args[0]) for x in recv.e])
             if m == "map" and len(args) == 1 and isinstance(args[0], Closure):
                 return Arr([self.call_closure(env, args[0], [x]) for x in recv.e])
+            if m in ("all", "any") and len(args) == 1 and isinstance(args[0], Closure):
+                cs = [self.call_closure(env, args[0], [x]) for x in recv.e]
+                cs = [c.coerce("Bool") if isinstance(c, Havoc) else c for c in cs]
+                return And(*cs) if m == "all" else Or(*cs)
             if m in ("max_by", "min_by") and len(args) == 1 and isinstance(args[0], Closure):
                 # core::iter::Iterator::{max_by, min_by}: a fold that keeps the later element on ties for max (`Greater => x, _ => y`),
                 # the earlier one for min (`Greater => y, _ => x`); None for an empty iterator
